@@ -73,5 +73,9 @@ check("C17", "exploration",
       "Differential oracle on pairs of sessions from an identical observed state: d<motion> vs y<motion> (and v<motion>d / v<motion>y) for 73 motions and text objects with counts: yank leaves the buffer unchanged, both registers are equal, and the deleted text re-inserted at one place gives back the original buffer.",
       TCB, "runtime monitoring: differential oracle (delete vs yank) over paired sessions", "DESIGN.md 5 C17")
 
+check("C18", "exploration",
+      "Differential oracle on pairs of sessions: the key script K typed twice vs K recorded and replayed (Emacs C-x ( ... C-x ) C-x e; Vi q<r> ... q @<r> over 10 registers), K = 1-12 tokens of text with quotes/backslashes/escape look-alikes, control keys, ESC-prefixed keys, CSI keys, quoted-insert, digit arguments, Vi commands with counts and argument keys; final buffer texts must be equal.",
+      TCB + " In Vi scripts a key that would combine with a directly preceding ESC into a bound sequence is excluded (replay carries no timing; same exclusion as C05).", "runtime monitoring: differential oracle (retype vs record+replay) over paired sessions", "DESIGN.md 5 C18")
+
 for _p in ["C03","C04","C05","C06","C07","C08","C09","C10","C11","C12","C13","C14","C15","C16","C17","C18","C19","C20"]:
     NOT_YET[_p] = "check under construction in this session (runtime monitor designed in DESIGN.md section 5, not yet registered)"
